@@ -222,8 +222,8 @@ def judge_class(case):
 
 
 SUBS = [
-    Sub("function", judge_function, function_case(), quick=2000, thorough=40000,
+    Sub("function", judge_function, function_case(), quick=2000, thorough=160000,
         rule="gen.SC_apply on generated tables equals the reference label model; inputs not mutated; repeated call identical"),
-    Sub("classes", judge_class, class_case(), quick=96, thorough=2000,
+    Sub("classes", judge_class, class_case(), quick=96, thorough=8000,
         rule="result.Lab of SSIcov/SSIdat/pLSCF runs on noisy random-response data equals the model applied to the filtered result tables"),
 ]
